@@ -1062,11 +1062,13 @@ func writeGetDTypeFunc(w *formatting.IndentedWriter, ns *dsl.Namespace) {
 					}
 				}
 
-				fmt.Fprintf(w, "dtype_map.setdefault(%s, %s)\n", common.TypeSyntaxWithoutTypeParameters(td, contextNamespace), typeDefinitionDTypeExpression(td, context))
-
 				if !isUnion {
+					// unions nested in the definition first: the definition's own dtype may be computed from them
+					// right away (an alias of a generic type instantiated with a union)
 					writeUnionDtypeIfNeeded(td, unions, contextNamespace)
 				}
+
+				fmt.Fprintf(w, "dtype_map.setdefault(%s, %s)\n", common.TypeSyntaxWithoutTypeParameters(td, contextNamespace), typeDefinitionDTypeExpression(td, context))
 			}
 
 			for _, p := range ns.Protocols {
